@@ -109,10 +109,27 @@ func c13Run(c *fw.Ctx, idx int, sc c13Scenario) {
 		dying.Send(kit.EncConnect(dyingOpts))
 		dying.Close()
 	} else {
+		if sc.cause == "short-session-then-node-failure" {
+			cl.StopPump() // the whole life of the session falls into one gossip interval
+		}
 		dying, err = host.MustConnect(dyingOpts)
 		if err != nil {
 			c.Inconclusive(desc + ": connect: " + err.Error())
 			return
+		}
+		if sc.cause == "short-session-then-node-failure" {
+			// CONNECT and DISCONNECT before any gossip goes out: the peers get the creation and the removal
+			// in whatever order the broadcast queue hands them out
+			dying.Send(kit.EncDisconnect())
+			dying.WaitClosed(10 * time.Second)
+			pollGone(10*time.Second, func() []string {
+				for _, m := range host.State.SessionMetadatas().All() {
+					if m.ClientID == dyingOpts.ClientID {
+						return []string{"still listed"}
+					}
+				}
+				return nil
+			})
 		}
 	}
 	defer dying.Close()
@@ -144,7 +161,7 @@ func c13Run(c *fw.Ctx, idx int, sc c13Scenario) {
 		dying.Send([]byte{0xf0, 0x02, 0x00, 0x00})
 	case "disconnect":
 		dying.Send(kit.EncDisconnect())
-	case "node-failure":
+	case "node-failure", "short-session-then-node-failure":
 		cl.StopPump()
 		if idx%2 == 0 {
 			cl.FailNode(host)
@@ -157,7 +174,8 @@ func c13Run(c *fw.Ctx, idx int, sc c13Scenario) {
 		survivors[sc.host] = false
 		cl.StartPump(3 * time.Millisecond)
 	}
-	expect := sc.cause != "disconnect"
+	expect := sc.cause != "disconnect" && sc.cause != "short-session-then-node-failure"
+	nodeFails := sc.cause == "node-failure" || sc.cause == "short-session-then-node-failure"
 	matching := func(w *c13Watcher) bool { return model.Match(w.filter, sc.willTopic) }
 	count := func(w *c13Watcher) (n int, topics map[string]bool) {
 		topics = map[string]bool{}
@@ -189,13 +207,13 @@ func c13Run(c *fw.Ctx, idx int, sc c13Scenario) {
 	} else {
 		dying.WaitClosed(10 * time.Second)
 	}
-	if sc.cause == "node-failure" {
+	if nodeFails {
 		time.Sleep(3300 * time.Millisecond)
 	} else {
 		time.Sleep(150 * time.Millisecond)
 	}
 	// barrier
-	if sc.cause == "node-failure" && !survivors[(sc.host+1)%sc.nNodes] {
+	if nodeFails && !survivors[(sc.host+1)%sc.nNodes] {
 		return
 	}
 	if acked, err := pub.Publish(sentinel, []byte("END"), 1, false, kit.DefaultWait); !acked {
@@ -320,18 +338,18 @@ func c13ReconnectWindow(c *fw.Ctx, idx int) {
 }
 
 func runC13(c *fw.Ctx) {
-	c.Rule = "scenarios = termination cause in {connection closed, connection closed right after CONNECT without reading the CONNACK, keep-alive expiry (1 s), second CONNECT, undecodable packet, failure of the hosting node, DISCONNECT} x will QoS 0/1/2 x retain x will topic x placement of the dying session over 1-3 nodes (tenant mount point through the user name); one watcher per node and per filter (exact topic, '+' and '#' variants, one non-matching), QoS 0 or 1, all in the dying session's mount point. Plus: connection loss inside the window of the client's own re-CONNECT (old record removed, new one not yet created; hook H2 gate). After the cause (and the code's 3 s delay for node failure) a sentinel barrier; oracle: every matching watcher on a surviving node received the will exactly once (QoS 1 retransmissions with the same identifier discounted) on the topic the client specified; nobody after DISCONNECT; non-matching watchers nothing. distinct = scenario parameters; non-trivial = all"
+	c.Rule = "scenarios = termination cause in {connection closed, connection closed right after CONNECT without reading the CONNACK, keep-alive expiry (1 s), second CONNECT, undecodable packet, failure of the hosting node, DISCONNECT, CONNECT+DISCONNECT inside one gossip interval followed by the failure of the hosting node} x will QoS 0/1/2 x retain x will topic x placement of the dying session over 1-3 nodes (tenant mount point through the user name); one watcher per node and per filter (exact topic, '+' and '#' variants, one non-matching), QoS 0 or 1, all in the dying session's mount point. Plus: connection loss inside the window of the client's own re-CONNECT (old record removed, new one not yet created; hook H2 gate). After the cause (and the code's 3 s delay for node failure) a sentinel barrier; oracle: every matching watcher on a surviving node received the will exactly once (QoS 1 retransmissions with the same identifier discounted) on the topic the client specified; nobody after DISCONNECT; non-matching watchers nothing. distinct = scenario parameters; non-trivial = all"
 	c.Assume("a stray will published after the barrier would be missed (20 publish workers are unordered); only earlier ones are seen")
-	causes := []string{"close", "keepalive", "second-connect", "garbage", "node-failure", "disconnect", "close-before-connack"}
+	causes := []string{"close", "keepalive", "second-connect", "garbage", "node-failure", "disconnect", "close-before-connack", "short-session-then-node-failure"}
 	scen := []c13Scenario{}
 	rg := c.SubRng("c13", 0)
 	topics := []string{"w/a/x", "w/b", "w/a/x/y"}
 	for ci, cause := range causes {
 		for nn := 1; nn <= 3; nn++ {
-			if cause == "node-failure" && nn == 1 {
+			if (cause == "node-failure" || cause == "short-session-then-node-failure") && nn == 1 {
 				continue
 			}
-			if c.Quick() && nn == 2 && ci%2 == 0 && cause != "node-failure" {
+			if c.Quick() && nn == 2 && ci%2 == 0 && cause != "node-failure" && cause != "short-session-then-node-failure" {
 				continue
 			}
 			t := topics[rg.Intn(len(topics))]
@@ -347,7 +365,7 @@ func runC13(c *fw.Ctx) {
 	for i := 0; i < c.Pick(6, 300); i++ {
 		cause := causes[rg.Intn(len(causes))]
 		nn := 1 + rg.Intn(3)
-		if cause == "node-failure" && nn == 1 {
+		if (cause == "node-failure" || cause == "short-session-then-node-failure") && nn == 1 {
 			nn = 3
 		}
 		t := topics[rg.Intn(len(topics))]
